@@ -42,6 +42,13 @@ CLASSES = [
     ("VS", "VariablesStack", "XSLT/VariablesStack.hpp", "XSLT/VariablesStack.cpp"),
     ("PR", "XSLTEngineImpl", "XSLT/XSLTEngineImpl.hpp", "XSLT/XSLTEngineImpl.cpp"),
     ("SO", "NodeSorter", "XSLT/NodeSorter.hpp", "XSLT/NodeSorter.cpp"),
+    ("CT", "CountersTable", "XSLT/CountersTable.hpp", "XSLT/CountersTable.cpp"),
+]
+# objects the transformer installs into its execution context for its whole life when built with ICU
+# (XalanTransformer.cpp:123-135): pointees of EC.m_collationCompareFunctor / EC.m_formatNumberFunctor
+ICU_CLASSES = [
+    ("CF", "ICUBridgeCollationCompareFunctorImpl", "ICUBridge/ICUBridgeCollationCompareFunctorImpl.hpp", "ICUBridge/ICUBridgeCollationCompareFunctorImpl.cpp"),
+    ("FN", "ICUFormatNumberFunctor", "ICUBridge/ICUFormatNumberFunctor.hpp", "ICUBridge/ICUFormatNumberFunctor.cpp"),
 ]
 BASES = {  # base classes whose fields are inherited (read from the AST too)
     "EC": ["XPathExecutionContext", "ExecutionContext"],
@@ -51,6 +58,7 @@ NESTED = {  # member -> tag of the modelled class it is an instance of
     ("EC", "m_xpathExecutionContextDefault"): "XP",
     ("EC", "m_variablesStack"): "VS",
     ("EC", "m_nodeSorter"): "SO",
+    ("EC", "m_countersTable"): "CT",
 }
 # members that reset() does not touch and that the interpreter restores with scope guards: accessors that hand out a
 # mutable reference to them (sites outside the owning class are found through these)
@@ -60,6 +68,9 @@ MUTATORS = r"(?:push_back|reserve|resize|insert|assign|swap|pop_back|erase|clear
 POINTS_TO = {  # pointer member -> tag of the modelled (per-call) class it points to
     ("EC", "m_xsltProcessor"): "PR",
 }
+
+
+EXTRA_INCLUDES = ""
 
 
 class TErr(Exception):
@@ -213,7 +224,7 @@ def clang_fields(names):
     os.makedirs(os.path.join(common.CACHE, "work"), exist_ok=True)
     tu = os.path.join(common.CACHE, "work", "c06_tu_%d.cpp" % os.getpid())
     with open(tu, "w") as f:
-        f.write("#include <xalanc/XSLT/NodeSorter.hpp>\n"
+        f.write(EXTRA_INCLUDES + "#include <xalanc/XSLT/NodeSorter.hpp>\n"
                 "#include <xalanc/XalanTransformer/XalanTransformer.hpp>\n"
                 "#include <xalanc/XSLT/StylesheetExecutionContextDefault.hpp>\n"
                 "#include <xalanc/XSLT/XSLTEngineImpl.hpp>\n")
@@ -522,6 +533,22 @@ def main():
     if recursive:
         raise TErr("XALAN_RECURSIVE_STYLESHEET_EXECUTION is defined: the model covers the iterative engine only")
 
+    # is the library built with the ICU bridge (then every transformer owns an ICU collation functor and an ICU
+    # format-number functor, installed in its constructor)?
+    global EXTRA_INCLUDES
+    ninja = os.path.join(common.build_dir("hooks"), "build.ninja")
+    uses_icu = os.path.exists(ninja) and "XALAN_USE_ICU" in open(ninja, errors="replace").read()
+    if uses_icu:
+        tsrc = strip_comments(read("XalanTransformer/XalanTransformer.cpp"))
+        if not re.search(r"installCollationCompareFunctor\s*\(", tsrc) or not re.search(r"installFormatNumberFunctor\s*\(", tsrc) \
+                or not re.search(r"ICUBridgeCollationCompareFunctor::create\s*\(\s*m_memoryManager\s*,\s*true\s*\)", tsrc):
+            raise TErr("XalanTransformer no longer installs the caching ICU collation / format-number functors as modelled")
+        for c in ICU_CLASSES:
+            if c not in CLASSES:
+                CLASSES.append(c)
+        EXTRA_INCLUDES = ("#include <xalanc/ICUBridge/ICUBridgeCollationCompareFunctorImpl.hpp>\n"
+                          "#include <xalanc/ICUBridge/ICUFormatNumberFunctor.hpp>\n")
+
     M = Model()
     names = [c[1] for c in CLASSES] + ["XPathExecutionContext", "ExecutionContext"]
     fields = clang_fields(sorted(set(names)))
@@ -560,6 +587,9 @@ def main():
     body("VS", "reset", r"\bVariablesStack::reset\s*\(\s*\)\s*")
     pop_body, _ = body("VS", "pop", r"\bVariablesStack::pop\s*\(\s*\)\s*")
     body("PR", "reset", r"\bXSLTEngineImpl::reset\s*\(\s*\)\s*")
+    if len(re.findall(r"\breset\s*\(\s*\)\s*\{", src["CT"][0])) != 1:
+        raise TErr("CountersTable.hpp: expected exactly one inline reset()")
+    body("CT", "reset", r"\breset\s*\(\s*\)\s*(?=\{)", use_hdr=True)
     body("T", "reset", r"\bXalanTransformer::reset\s*\(\s*\)\s*")
     body("T", "clearStylesheetParams", r"\bclearStylesheetParams\s*\(\s*\)\s*(?=\{)", use_hdr=True)
     er_body, _ = body("T", "EnsureReset", r"\bXalanTransformer::EnsureReset::~EnsureReset\s*\(\s*\)\s*")
@@ -766,6 +796,12 @@ def main():
     ctor("VS", "VariablesStack", lambda p: True)
     ctor("PR", "XSLTEngineImpl", lambda p: True)
     ctor("SO", "NodeSorter", lambda p: True)
+    # CountersTable: inline constructor in the header
+    if not re.search(r"CountersTable\s*\(\s*MemoryManager&\s*theManager\s*,\s*unsigned long\s+theSize\s*=\s*0\s*\)\s*:\s*m_countersVector\s*\(\s*theManager\s*\)\s*,\s*m_newFound\s*\(\s*theManager\s*\)", src["CT"][0]):
+        raise TErr("CountersTable constructor no longer has the modelled form")
+    for mem in M.members:
+        if mem["tag"] in ("CT", "CF", "FN"):
+            fresh[mem["id"]] = {"ptr": ("ptr", 1), "ref": ("ptr", 1), "flag": ("flag", True), "num": ("num", 0)}.get(mem["kind"], ("seq", []))
     # defaults of create(): theCurrentNode = 0, theContextNodeList = 0, thePrefixResolver = 0
     for tag in ("EC", "XP"):
         hdr = src[tag][0]
@@ -946,6 +982,42 @@ def main():
     if len(guard_classes) < 8:
         raise TErr("only %d RAII helper classes found in the execution context headers" % len(guard_classes))
 
+    # ---- caches whose entries carry mutable state (ICU collators / decimal formats kept for the transformer's life):
+    # every use must set, unconditionally, every piece of that state it depends on
+    stateful_sites = []
+    if uses_icu:
+        cf = src["CF"][1]
+        nset = 0
+        for mf in re.finditer(r"\bICUBridgeCollationCompareFunctorImpl::(\w+)\s*\(", cf):
+            try:
+                b, line, _ = find_body(cf[mf.start():], r"\bICUBridgeCollationCompareFunctorImpl::\w+\s*\((?:[^()]|\([^()]*\))*\)\s*(?:const\s*)?", "x")
+            except TErr:
+                continue
+            for ms in re.finditer(r"\.\s*(setAttribute|setStrength)\s*\(\s*(\w*)", b):
+                nset += 1
+                depth = b.count("{", 0, ms.start()) - b.count("}", 0, ms.start())
+                mcmp = re.search(r"\.\s*compare\s*\(", b)
+                ok = depth == 0 and (mcmp is None or ms.start() < mcmp.start())
+                stateful_sites.append(("ICUBridge/ICUBridgeCollationCompareFunctorImpl.cpp:%d %s: %s(%s) unconditional before compare" % (
+                    cf.count("\n", 0, mf.start()) + 1 + b.count("\n", 0, ms.start()), mf.group(1), ms.group(1), ms.group(2)), ok))
+            if mf.group(1) == "doCompareCached":
+                calls = re.findall(r"\bdoCompare\s*\(((?:[^()]|\([^()]*\))*)\)", b)
+                ok = bool(calls) and all(len(split_top(c, ",")) == 4 for c in calls)
+                stateful_sites.append(("ICUBridgeCollationCompareFunctorImpl::doCompareCached: cached collators are compared only through the overload that sets the case order", ok))
+        if nset == 0:
+            stateful_sites.append(("ICUBridgeCollationCompareFunctorImpl: no setAttribute at all although xsl:sort case-order is passed in", False))
+        # the default collator is never configured after its creation
+        for mu in re.finditer(r"m_defaultCollator\s*(?:->|\.)\s*(set\w+)", cf):
+            stateful_sites.append(("ICUBridgeCollationCompareFunctorImpl: m_defaultCollator->%s after creation" % mu.group(1), False))
+        fn = src["FN"][1]
+        b, line, _ = find_body(fn, r"\bICUFormatNumberFunctor::doICUFormat\s*\((?:[^()]|\([^()]*\))*\)\s*(?:const\s*)?", "ICUFormatNumberFunctor::doICUFormat")
+        ma = re.search(r"->\s*applyPattern\s*\(", b)
+        mfmt = re.search(r"->\s*format\s*\(", b)
+        ok = bool(ma and mfmt and ma.start() < mfmt.start() and b.count("{", 0, ma.start()) == b.count("}", 0, ma.start()))
+        stateful_sites.append(("ICUBridge/ICUFormatNumberFunctor.cpp:%d doICUFormat: applyPattern unconditional before format" % line, ok))
+        nfmt = len(re.findall(r"->\s*format\s*\(", fn))
+        stateful_sites.append(("ICUFormatNumberFunctor: the only format() call is the one in doICUFormat", nfmt == 1))
+
     # ---- classification
     roles = {}
     unclassified = []
@@ -1038,6 +1110,11 @@ def main():
     L.append("def scratchSites : List (String × Bool) := [")
     L.append(",\n".join('  ("%s", %s)' % (w_, "true" if ok_ else "false") for (w_, ok_) in scratch_sites))
     L.append("]")
+    L.append("/-- uses of cached objects that carry mutable state: (what, the state is set unconditionally before the use) -/")
+    L.append("def statefulCacheSites : List (String × Bool) := [")
+    L.append(",\n".join('  ("%s", %s)' % (w_.replace('"', "'"), "true" if ok_ else "false") for (w_, ok_) in stateful_sites))
+    L.append("]")
+    L.append("def usesICU : Bool := %s" % ("true" if uses_icu else "false"))
     L.append("def guardClassProblems : List String := [%s]" % ", ".join('"%s"' % u for u in guard_class_problems))
     L.append("def vsStack : Nat := %d" % M.mid("VS", "m_stack"))
     L.append("def vsIndex : Nat := %d" % M.mid("VS", "m_currentStackFrameIndex"))
@@ -1055,7 +1132,7 @@ def main():
         "sticky_written": sticky_written, "order_problems": order_problems,
         "objStackResetZeroesDepth": funcs[("OSC", "zeroes")], "paramSetClearsOther": param_set_clears_other,
         "guard_sites": guard_sites, "scratch_sites": scratch_sites, "guard_classes": guard_classes,
-        "guard_class_problems": guard_class_problems,
+        "guard_class_problems": guard_class_problems, "stateful_cache_sites": stateful_sites, "uses_icu": uses_icu,
     }
     with open(out_json, "w") as f:
         json.dump(side, f, indent=1)
